@@ -154,7 +154,12 @@ def gen_budget_struct(r, name, budget, enums, enum_w, structs, struct_w, fidx, f
         if t is None:
             t, w = ("u", 1), 1
         fidx[0] += 1
-        f = {"name": "s%d" % fidx[0], "id": fid, "type": t}
+        fname = "s%d" % fidx[0]
+        if fields and r.random() < 0.12:
+            # a field named like an earlier one plus a suffix (speed / speed_limit): different fields, each
+            # with its own options or none
+            fname = "%s_%s%d" % (fields[r.randrange(len(fields))]["name"].split("_")[0], r.choice(["lim", "raw", "ok"]), fidx[0])
+        f = {"name": fname, "id": fid, "type": t}
         if r.random() < 0.25:
             f["unit"] = r.choice(["m/s", "C", "V", "rpm", "kg", "%", "°C", "µV", "mΩ"])
         fields.append(f)
@@ -175,6 +180,11 @@ def gen_can_schema(r, prefix="C", max_bindings=6, flat=False, buses=True, big_en
         # some enum names begin with 'i' / 'u': an enum is unsigned whatever it is called
         n = r.choice(["%sEn%d", "%sEn%d", "i%sEn%d", "u%sEn%d", "input%sEn%d"]) % (prefix, i)
         d = mk_enum(n, r.choice(enum_maxes or ENUM_MAXES), r)
+        if i == 0 and r.random() < 0.2:
+            # enumerators named like the fixed-width types of C (a sample format, say); one enum per schema
+            # only, so that no two enums share an enumerator name
+            pool = ["U8", "I16", "u32", "F32", "I64", "U64", "i8"]
+            d["values"] = [(pool[k % len(pool)] + ("" if k < len(pool) else str(k)), v) for k, (_n, v) in enumerate(d["values"])]
         decls.append(d)
         enums.append(n)
         enum_w[n] = max(1, max(v for _, v in d["values"]).bit_length())
@@ -195,7 +205,8 @@ def gen_can_schema(r, prefix="C", max_bindings=6, flat=False, buses=True, big_en
         ids[r.randrange(nb)] = 0  # frame id 0 is a valid (and falsy) id
     extra_ids = []
     bus_names = r.sample(["can0", "can1", "pt", "b", "x1"], r.randint(1, 3))
-    dev_names = r.sample(["ecu", "bms", "inv", "dash"], r.randint(1, 3))
+    # (device names with an underscore in front of a digit: ecu_2, bms_12v)
+    dev_names = r.sample(["ecu", "bms", "inv", "dash", "ecu_2", "bms_12v", "front_ecu"], r.randint(1, 3))
     for i in range(nb):
         n = "%sMsg%d" % (prefix, i)
         budget = r.choice([64, 64, r.randint(1, 64), r.randint(33, 64), r.randint(57, 64)])
